@@ -68,6 +68,9 @@ pub mod sync;
 
 pub use policy::Policy;
 
+#[cfg(mini_moka_verif)]
+pub mod verif;
+
 #[cfg(test)]
 mod tests {
     #[cfg(all(trybuild, feature = "sync"))]
